@@ -81,7 +81,7 @@ def prio_kinds(m):
 
 
 ALIASES = [None, None, None, "a", "job", "exactly16chars..", "seventeen chars!!", "x" * 40, "äöü中文 alias",
-           "", "#", "with # hash and more than sixteen"]
+           "", "#", "with # hash and more than sixteen", "{tenant}-sync", "report {0}", "100%s", "%(x)s {", "}{"]
 WEIGHTS = [1, 0, 2, 10, 123456, 1234567, 0.5, 0.1, 1e-9, 1e16, 1.0, 3.14159265358979, 12345.678, -1, float(2**70), 99999, 100000.5]
 MAXES = [0, 1, 2, 10, 999, 10**6, 10**12, 10**15]
 TZNAMES = [None, None, "X", "Europe/Berlin-ish", "A very long timezone name indeed", "twelve chars", "thirteen char"]
@@ -160,6 +160,10 @@ def one_case(r, m, stats, model_lines, expectations, fails):
             if tz is not None and r.random() < 0.5:
                 tz_j = dt.timezone(dt.timedelta(microseconds=gen.rand_offset(r)))
             kw = dict(start=start, alias=alias, max_attempts=r.choice(MAXES))
+            if r.random() < 0.12:
+                # a stop the first due time may already exceed: the threading scheduler never registers such a job,
+                # the asyncio scheduler keeps it registered until its supervising task has run
+                kw["stop"] = start + dt.timedelta(microseconds=r.choice([1, 10**6, 10**9]))
             if not aio:
                 kw["weight"] = r.choice(WEIGHTS)
             try:
